@@ -391,16 +391,40 @@ func invalidStartGrid(ctx *RunCtx, rep *Report) {
 			}
 		}
 	}
+	// every case twice: on a fresh game object, and on an object that has just played a hand at a bigger
+	// table and is given the case's options with ApplyOptions (a pooled object)
+	type run struct {
+		sc
+		reused bool
+	}
+	var runs []run
 	for _, c := range cases {
+		runs = append(runs, run{c, false}, run{c, true})
+	}
+	for _, c := range runs {
 		o := &pokerface.GameOptions{}
 		c.mut(o)
 		var err error
 		var pan interface{}
 		func() {
 			defer func() { pan = recover() }()
+			if c.reused {
+				pc := &Cfg{N: 9, SB: 5, BB: 10, Limit: "no", Hole: 2, Deck: baseDeck(false)}
+				for i := 0; i < 9; i++ {
+					pc.Banks = append(pc.Banks, 100)
+				}
+				g := playPrefix(pc, 1000)
+				g.ApplyOptions(o)
+				err = g.Start()
+				rep.Inc("start_grid_cases_on_reused_object")
+				return
+			}
 			g := pokerface.NewPokerFace().NewGame(o)
 			err = g.Start()
 		}()
+		if c.reused {
+			c.name += " (re-used object)"
+		}
 		rep.Inc("start_grid_cases")
 		if c.ok {
 			rep.Inc("start_accepts_checked")
